@@ -274,7 +274,14 @@ def stage4(work_dir, resume, layer):
         this.get_chr_list = lambda: ["chr1"]
         this.alignment_stat_counter = stats.EnumStats()
         sample = Obj(out_raw_file=os.path.join(work_dir, "smp.save"), file_list=[["x.bam"]])
+        stale = [sample.out_raw_file + "_chr1" + sfx for sfx in ("_collected", "_processed")]
+        if not resume:
+            # per-chromosome locks left by an earlier, killed attempt in the same output folder
+            for p_ in stale:
+                builtins.open(p_, "w").close()
         this.collect_reads(sample)
+        if not resume:
+            STALE_LOCKS_LEFT[:] = [os.path.basename(p_) for p_ in stale if os.path.exists(p_)]
         total, polya, groups = this.load_read_info(sample.out_raw_file)
         return {"total_assignments": total, "polya": polya, "groups": sorted(groups),
                 "unaligned_reads": this.alignment_stat_counter.stats_dict[dp.AlignmentType.unaligned]}
@@ -285,6 +292,9 @@ def stage4(work_dir, resume, layer):
             dp.__dict__.pop("open", None)
         else:
             dp.open = saved[2]
+
+
+STALE_LOCKS_LEFT = []
 
 
 STAGES = {"collect": stage, "process": stage2, "merge": stage3, "sample": stage4}
